@@ -62,6 +62,7 @@ fn order_stress() -> Vec<Query> {
     let texts = [
         "$[*]['a','b']", "$[*][0,1]", "$..[0,1]", "$..['a','b']", "$[0,0]", "$[*,*]", "$[::-1,0]", "$..[::-1]", "$..[::-2]", "$[*][::-1]", "$..[*]", "$..*", "$[*][*]", "$[*]..[0]", "$..[?@.a]",
         "$[?@.a, ?@.b]", "$[*][?@>0]", "$..[1:,0]", "$[1:,:1]", "$.*.*", "$..a..b", "$..[*]..[0]", "$['a','a']", "$[0:3,2:5]", "$..[-1,0]", "$[*]..a", "$..[?@[0]]", "$[::2,1::2]", "$..[*,0]", "$[*]['b','a']",
+        "$[0,1,2]", "$['c','a','b']", "$[0,1,2,3]", "$[0,1,1]", "$[*,0,1]", "$..[0,1,2]", "$[2,0,1,0]", "$['b','a','c','a']", "$[1:,0,::-1]", "$[*]..a", "$[0:3]..[0]", "$[2,0]..[0]", "$..a..b", "$[*]..[0]",
         "$..a", "$..b", "$..['a']", "$..[0]", "$..[-1]", "$.a..a", "$..a.a", "$..*..*", "$[*,0]", "$[0,*]",
     ];
     texts
